@@ -287,7 +287,7 @@ impl<'ast, 'res> Resolver<'ast, 'res> {
             Stmt::If { cond, then_b, else_b, .. } => {
                 self.check_expr(cond);
                 self.check_boolean_expr(cond);
-                self.set_stmt_expr_class(self.classify_expr(cond));
+                self.set_stmt_expr_class(self.classify_condition(cond));
                 self.check_block(then_b);
                 // Else block is optional in the grammar
                 if let Some(eb) = else_b {
@@ -298,7 +298,7 @@ impl<'ast, 'res> Resolver<'ast, 'res> {
             Stmt::Loop { cond, body, .. } => {
                 self.check_expr(cond);
                 self.check_boolean_expr(cond);
-                self.set_stmt_expr_class(self.classify_expr(cond));
+                self.set_stmt_expr_class(self.classify_condition(cond));
                 self.in_loop += 1;
                 self.check_block(body);
                 self.in_loop -= 1;
@@ -1117,7 +1117,23 @@ impl<'ast, 'res> Resolver<'ast, 'res> {
     /// True when the operand's type is not statically known, so using it can still
     /// fail with a runtime type error.
     fn type_known_at_runtime_only(&self, expr: ExprRef<'ast>) -> bool {
+        // A variable can be reassigned at another type (`x get "s"` after
+        // `make x get 1`), so its declared type is no guarantee at run time.
+        if matches!(expr, Expr::Var(..)) {
+            return true;
+        }
         !matches!(self.infer_expr_type(expr), Some(t) if t != ValueType::Dynamic)
+    }
+
+    /// Effect class of a condition: a value that is not statically boolean can
+    /// still fail the truthiness check at run time.
+    fn classify_condition(&self, cond: ExprRef<'ast>) -> ExprClass {
+        let class = self.classify_expr(cond);
+        if self.type_known_at_runtime_only(cond) {
+            class.join(ExprClass::PureMayTrap)
+        } else {
+            class
+        }
     }
 
     fn classify_expr(&self, expr: ExprRef<'ast>) -> ExprClass {
